@@ -74,15 +74,21 @@ LinAccess(g) == /\ pend[g].op = "access" /\ pend[g].res = "?"
                 /\ pend' = [pend EXCEPT ![g].res = Admitted(pend[g].arg)]
                 /\ UNCHANGED <<cursor, cache, shared, nops, picks>>
 
+\* ---- observation of the active table by a request that is no lookup (admin API /api/routes, UI, Table.String):
+\* it reads the table and has NO shared effect - in particular it leaves the ring, the cursor and the targets alone
+LinObserve(g) == /\ pend[g].op = "observe" /\ pend[g].res = "?"
+                 /\ pend' = [pend EXCEPT ![g].res = "ok"]
+                 /\ UNCHANGED <<cursor, cache, shared, nops, picks>>
+
 Ret(g) == /\ pend[g].op # "idle" /\ pend[g].res # "?" /\ (FineGrain /\ pend[g].op = "pick" => pend[g].tmp = 1)
           /\ pend' = [pend EXCEPT ![g] = Idle]
           /\ UNCHANGED <<cursor, cache, shared, nops, picks>>
 
 Next == \E g \in Procs :
           \/ Inv(g, "pick", "") \/ (\E p \in Patterns : Inv(g, "glob", p)) \/ (\E p \in Paths : Inv(g, "redirect", p))
-          \/ (\E a \in Addrs : Inv(g, "access", a))
+          \/ (\E a \in Addrs : Inv(g, "access", a)) \/ Inv(g, "observe", "")
           \/ LinPick(g) \/ PickRead(g) \/ PickAdd(g) \/ LinGlob(g) \/ LinRedirect(g) \/ RedirWrite(g) \/ RedirRead(g)
-          \/ LinAccess(g) \/ Ret(g)
+          \/ LinAccess(g) \/ LinObserve(g) \/ Ret(g)
 Spec == Init /\ [][Next]_vars
 
 -----------------------------------------------------------------------------
